@@ -21,7 +21,7 @@ func codecPatterns() []string {
 	for _, p := range codecPkgs {
 		out = append(out, "./"+p)
 	}
-	return append(out, "./pkg/protocol/xprotocol", "./pkg/stream/xprotocol", "./pkg/protocol", "./pkg/stream/http", "./pkg/module/http2")
+	return append(out, "./pkg/protocol/xprotocol", "./pkg/stream/xprotocol", "./pkg/protocol", "./pkg/stream/http", "./pkg/module/http2", "./pkg/proxy")
 }
 
 func init() {
@@ -315,6 +315,7 @@ func runC07(c *Ctx) {
 	c.Rule("C07.B2", "Drain only after the full-frame guard, by exactly the frame length; need-more-data edges are tight; no Drain before (nil,nil)", 20)
 	c.Rule("C07.B3", "matchers answer MatchAgain exactly below their (constant) width and never decide on fewer bytes than they read", 10)
 	c.Rule("C07.B3h", "the HTTP/1 detector gives a negative verdict only after it has seen as many bytes as it may read", 2)
+	c.Rule("C07.B3s", "protocol auto-detection: success only on a matcher's nil answer, need-more-data sticky, FAILED only when nobody asked for more, proxy waits without consuming", 4)
 	c.Rule("C07.B2h", "HTTP/2 frame reader: re-read loops advance, drain once and last by the reported size, HPACK fed only after the block arrived", 5)
 	c.Rule("C07.B2d", "Dispatch: loop exits only on empty/(nil,nil)/error; a frame goes to handleFrame exactly once", 5)
 	c.Assumptions = append(c.Assumptions,
@@ -339,6 +340,7 @@ func runC07(c *Ctx) {
 	runC07Dispatch(c)
 	runC07HTTPMatcher(c)
 	runC07H2(c, "C07.B1", "C07.B2h")
+	runC07Detection(c)
 }
 
 // ---------------------------------------------------------------------------------------------
